@@ -109,11 +109,13 @@ type btreeNode struct {
 }
 
 func (n *btreeNode) markDirty(lsn uint64) {
+	verifNodeMark(n, true)
 	n.lastLSN = lsn
 	n.dirty = true
 }
 
 func (n *btreeNode) markClean() {
+	verifNodeMark(n, false)
 	n.dirty = false
 }
 
@@ -614,18 +616,22 @@ func newFileStore(path string, autoFlushCache bool) (*fileStore, error) {
 		file:           file,
 		mtx:            sync.RWMutex{},
 	}
+	verifStoreOpened(fs, path, autoFlushCache)
 	if autoFlushCache {
 		fs.tickerDone = make(chan bool)
 		fs.ticker = time.NewTicker(pageFlushInterval)
+		verifTicker(fs)
 		go func() {
 			for {
 				select {
 				case <-fs.tickerDone:
 					return
 				case <-fs.ticker.C:
+					verifFlusher(fs, verifFlusherWake)
 					if err := fs.flushPages(); err != nil {
 						fmt.Printf("error flushing pages: %s", err.Error())
 					}
+					verifFlusher(fs, verifFlusherDone)
 				}
 			}
 		}()
@@ -648,23 +654,28 @@ type fileStore struct {
 }
 
 func (f *fileStore) lockShared() {
+	verifLock(f, verifLockWantShared)
 	f.mtx.RLock()
 }
 func (f *fileStore) unlockShared() {
 	f.mtx.RUnlock()
+	verifLock(f, verifLockRelShared)
 }
 
 func (f *fileStore) lockExclusive() {
+	verifLock(f, verifLockWantExcl)
 	f.mtx.Lock()
 }
 func (f *fileStore) unlockExclusive() {
 	f.mtx.Unlock()
+	verifLock(f, verifLockRelExcl)
 }
 
 func (f *fileStore) close() error {
 	defer f.file.Close()
 	if f.autoFlushCache {
 		f.ticker.Stop()
+		verifClose(f)
 		f.tickerDone <- true
 	}
 	return f.flushPages()
@@ -679,6 +690,7 @@ func (f *fileStore) setRoot(node *btreeNode) {
 }
 
 func (f *fileStore) setPageTableRoot(node *btreeNode) error {
+	verifAccess(f, verifAccSetPageTableRoot, node.getFileOffset())
 	f.pageTableRoot = node.getFileOffset()
 	return nil
 }
@@ -688,6 +700,7 @@ func (f *fileStore) getLastKey() uint32 {
 }
 
 func (f *fileStore) incrementLastKey() error {
+	verifAccess(f, verifAccIncrLastKey, 0)
 	f.lastKey++
 	return nil
 }
@@ -697,6 +710,7 @@ func (f *fileStore) update(node *btreeNode) error {
 	if err != nil {
 		return err
 	}
+	verifPageWrite(f, node, buf.Bytes())
 	if _, err := f.file.WriteAt(buf.Bytes(), int64(node.getFileOffset())); err != nil {
 		return err
 	}
@@ -709,6 +723,7 @@ func (f *fileStore) update(node *btreeNode) error {
 }
 
 func (f *fileStore) append(node *btreeNode) error {
+	verifAccess(f, verifAccAppend, f.nextFreeOffset)
 	node.setFileOffset(f.nextFreeOffset)
 
 	if err := f.setCache(node.getFileOffset(), node); err != nil {
@@ -721,6 +736,7 @@ func (f *fileStore) append(node *btreeNode) error {
 }
 
 func (f *fileStore) fetch(offset uint64) (*btreeNode, error) {
+	verifAccess(f, verifAccFetch, offset)
 	if n, ok := f.cache.get(offset); ok {
 		return n, nil
 	}
@@ -745,6 +761,7 @@ func (f *fileStore) fetch(offset uint64) (*btreeNode, error) {
 		return nil, err
 	}
 
+	verifPageRead(f, offset, buf, n)
 	if err := f.setCache(n.getFileOffset(), n); err != nil {
 		return nil, err
 	}
@@ -767,6 +784,7 @@ func (f *fileStore) save() error {
 	if err := binary.Write(writer, binary.LittleEndian, f._nextLSN); err != nil {
 		return err
 	}
+	verifHeaderWrite(f, writer.Bytes())
 	if _, err := f.file.WriteAt(writer.Bytes(), 0); err != nil {
 		return err
 	}
@@ -803,10 +821,12 @@ func (f *fileStore) flushPages() error {
 		}
 		node.markClean()
 	}
+	verifFlushLoopDone(f)
 	return f.save()
 }
 
 func (f *fileStore) setCache(key any, val *btreeNode) error {
+	verifAccess(f, verifAccSetCache, val.getFileOffset())
 	if !f.cache.set(key, val) {
 		return ErrLRUCacheFull
 	}
@@ -818,5 +838,6 @@ func (f *fileStore) nextLSN() uint64 {
 }
 
 func (f *fileStore) incrLSN() {
+	verifAccess(f, verifAccIncrLSN, 0)
 	f._nextLSN++
 }
